@@ -111,7 +111,8 @@ const D_MERKLE_HEXSTR: usize = 36;
 const D_CODEC: usize = 37;
 const D_API_OUTPUT_PRINTABLE: usize = 38;
 const D_API_OUTPUT: usize = 39;
-const NDEC: usize = 40;
+const D_JSON_TX: usize = 40;
+const NDEC: usize = 41;
 
 const DECODERS: [&str; NDEC] = [
 	"MsgHeaderWrapper",
@@ -154,6 +155,7 @@ const DECODERS: [&str; NDEC] = [
 	"Codec::read",
 	"api::OutputPrintable(json)",
 	"api::Output(json)",
+	"Transaction(json)",
 ];
 
 /// Decoder name used in violation signatures (the two from_hex drivers are one entry point).
@@ -1139,6 +1141,77 @@ fn build_corpus(seed: u64) -> Corpus {
 					dup.pop();
 					dup.push_str(&format!(",\"{}\":{}}}", k, obj[k]));
 					b.add(dec, 0, u32::MAX, false, &format!("key {} twice", k), &RawBytes(dup.into_bytes()));
+				}
+			}
+		}
+	}
+
+	// ---- the JSON form of a transaction (what the node's foreign API takes in push_transaction): the valid document, and
+	// every string / number leaf of it replaced by strings that are not what the field's hex reader expects
+	{
+		fn leaves(v: &serde_json::Value, path: &mut Vec<String>, out: &mut Vec<Vec<String>>) {
+			match v {
+				serde_json::Value::Object(o) => {
+					for (k, x) in o {
+						path.push(k.clone());
+						leaves(x, path, out);
+						path.pop();
+					}
+				}
+				serde_json::Value::Array(a) => {
+					for (i, x) in a.iter().enumerate().take(2) {
+						path.push(i.to_string());
+						leaves(x, path, out);
+						path.pop();
+					}
+				}
+				_ => out.push(path.clone()),
+			}
+		}
+		fn set(v: &mut serde_json::Value, path: &[String], nv: serde_json::Value) {
+			if path.is_empty() {
+				*v = nv;
+				return;
+			}
+			match v {
+				serde_json::Value::Object(o) => {
+					if let Some(x) = o.get_mut(&path[0]) {
+						set(x, &path[1..], nv)
+					}
+				}
+				serde_json::Value::Array(a) => {
+					if let Some(x) = path[0].parse::<usize>().ok().and_then(|i| a.get_mut(i)) {
+						set(x, &path[1..], nv)
+					}
+				}
+				_ => {}
+			}
+		}
+		for (name, tx) in [("1in-2out plain", &tx1), ("2in-2out height-locked", &tx2)] {
+			let doc = serde_json::to_value(tx).expect("tx json");
+			b.add(D_JSON_TX, 0, u32::MAX, true, &format!("valid document {}", name), &RawBytes(doc.to_string().into_bytes()));
+			let mut ls = vec![];
+			leaves(&doc, &mut vec![], &mut ls);
+			for path in ls {
+				for (what, nv) in [
+					("not hex", json!("zz")),
+					("empty", json!("")),
+					("odd number of digits", json!("abc")),
+					("multi-byte character", json!("\u{e9}0")),
+					("31 bytes", json!("ab".repeat(31))),
+					("33 bytes", json!("ab".repeat(33))),
+					("65 bytes", json!("ab".repeat(65))),
+					("5000 bytes", json!("cd".repeat(5000))),
+					("number", json!(7)),
+					("huge number", json!(u64::MAX)),
+					("negative", json!(-1)),
+					("null", serde_json::Value::Null),
+					("array", json!([1, 2])),
+					("object", json!({"Plain": {"fee": "zz"}})),
+				] {
+					let mut d = doc.clone();
+					set(&mut d, &path, nv);
+					b.add(D_JSON_TX, 0, u32::MAX, false, &format!("{}: {} = {}", name, path.join("."), what), &RawBytes(d.to_string().into_bytes()));
 				}
 			}
 		}
@@ -2787,6 +2860,16 @@ fn exec_case(w: &WCtx, c: &Case, m: &mut Mon) {
 			if let Some(v) = decoded {
 				m.stage("api::OutputPrintable::range_proof", false, || v.range_proof().map(|_| ()).map_err(|_| "range_proof".to_string()));
 				m.stage("api::OutputPrintable::commit", false, || v.commit().map(|_| ()).map_err(|_| "commit".to_string()));
+			}
+		}
+		D_JSON_TX => {
+			let s = String::from_utf8_lossy(b).to_string();
+			let mut decoded = None;
+			m.stage("serde_json::from_str::<Transaction>", true, || {
+				serde_json::from_str::<Transaction>(&s).map(|v| decoded = Some(v)).map_err(|_| "deserialize".to_string())
+			});
+			if let Some(tx) = decoded {
+				m.stage("Transaction::validate_read", false, || tx.validate_read().map_err(|_| "validate_read".to_string()));
 			}
 		}
 		D_API_OUTPUT => {
